@@ -13,6 +13,18 @@ EIG_NOTE = ('the contracts of scipy eigsh/eigs/eigh/eig and of sparse.remove_nul
             'ordering, positivity/ascending order of computed values and sparse/dense agreement are not decidable by contracts and are not claimed')
 
 CHECKS = {
+ 'C20': dict(
+    category='proof',
+    text=('history independence as frame/effect obligations over the real Panel methods executed symbolically (down to the kernel and field contracts): '
+          'each of 10 public evaluation methods can be requested first on a fresh object; for every ordered pair (A,B) the structural result of B after A equals '
+          'the result of B alone; after a definition attribute (a, offset, stack, plyt, Nxx, r) is changed between two calls the second result equals that of a '
+          'fresh object with the new value; caller arrays are read-only in the executor (a write is a frame violation); Panel.lb/freq are executed with the matrix '
+          'methods replaced by contracts that tag each matrix with the definition it was computed from, so the eigenproblem handed to the solver is proved '
+          'to be that of the current definition in every tested history.'),
+    design_ref='DESIGN.md section 4 (C20)',
+    note=('histories of length <= 3 over the listed methods (bounded in length, symbolic in all data); kernels/field functions assumed pure; thread-count independence of the '
+          'compiled prange loops, PanelAssembly/StiffPanelBay/ConeCyl histories and plotting are not yet covered; 8 known findings (cached plyts), 1 fixed defect'),
+    technique='effect contracts + symbolic execution; structural comparison of result terms'),
  'C12': dict(
     category='proof',
     text=('calc_kt_kr is executed symbolically for the five connection types (laminates through the C01 contract): symmetric in the two panels and homogeneous of degree 1 '
